@@ -27,7 +27,9 @@ BUDGET_S = {"quick": 85, "thorough": 1500}
 FLOORS = {"quick": {"near-limit": 600, "over-limit": 400, "under-limit": 400, "ratio>=100": 300, "producer:joserfc": 300, "producer:ref": 500, "zlib-framed": 60},
           "thorough": {"near-limit": 6000}}
 LIMIT = 256000
-CLASSES = ["constant", "periodic", "text", "random", "random-then-zeros", "zeros-then-random"]
+CLASSES = ["constant", "periodic", "text", "random", "random-then-zeros", "zeros-then-random", "records"]
+# one repeat length per DEFLATE length code 257..285 (RFC 1951 3.2.5): decides HLIT and with it the first octet of a dynamic block
+LENGTH_CODE_REPS = [3, 4, 5, 6, 7, 8, 9, 10, 11, 13, 15, 17, 20, 24, 28, 32, 38, 46, 54, 62, 74, 90, 106, 122, 146, 178, 210, 242, 258]
 
 
 def make_plaintext(cls: str, n: int, seed: int, period: int = 7) -> bytes:
@@ -54,6 +56,18 @@ def make_plaintext(cls: str, n: int, seed: int, period: int = 7) -> bytes:
         return bytes(out[:n])
     if cls == "random":
         return rnd(n)
+    if cls == "records":
+        # log-like lines: a varying id and one of 30 fixed tokens of width `period`; enough lines for several DEFLATE blocks
+        w = max(1, period - 2)
+        alphabet = b"abcdefghijklmnopqrstuvwxyzABCDEFGHIJKLMNOPQRSTUVWXYZ0123456789-_"
+        tokens = [bytes(alphabet[b % 64] for b in rnd(w, b"tok%d" % i)) for i in range(30)]
+        r = rnd(5 * (n // (w + 10) + 2), b"ids")
+        out = bytearray()
+        i = 0
+        while len(out) < n:
+            out += r[5 * i:5 * i + 4].hex().encode() + b" " + tokens[r[5 * i + 4] % 30] + b"\n"
+            i += 1
+        return bytes(out[:n])
     if cls == "random-then-zeros":
         k = min(n, 1000 + seed % 3000)
         return rnd(k) + bytes(n - k)
@@ -76,7 +90,8 @@ def cases(draw):
     else:
         n = draw(st.sampled_from([LIMIT * 2, LIMIT * 4, 1 << 20, 3 << 20]))
     producer = draw(st.sampled_from(["joserfc", "ref", "ref"]))
-    return {"kind": kind, "cls": cls, "n": n, "seed": draw(st.integers(0, 10**6)), "period": draw(st.sampled_from([1, 2, 3, 7, 64, 255, 258, 259, 300])),
+    return {"kind": kind, "cls": cls, "n": n, "seed": draw(st.integers(0, 10**6)),
+            "period": draw(st.sampled_from(LENGTH_CODE_REPS if cls == "records" else [1, 2, 3, 7, 64, 255, 258, 259, 300])),
             "enc": draw(st.sampled_from(jweplan.ENCS)), "ser": draw(st.sampled_from(["compact", "flattened"])), "producer": producer,
             "level": draw(st.integers(0, 9)), "framing": draw(st.sampled_from(["raw", "raw", "raw", "zlib"])) if producer == "ref" else "raw",
             "alg": draw(st.sampled_from(["dir", "A128KW"]))}
@@ -195,7 +210,7 @@ def run_case(c) -> dict:
 
 
 def shards(tier):
-    return [(f"z{i:02d}", {"part": "gen"}) for i in range(13)] + [(f"h{i}", {"part": "huge"}) for i in range(3)]
+    return [(f"z{i:02d}", {"part": "gen"}) for i in range(13)] + [(f"h{i}", {"part": "huge"}) for i in range(3)] + [("rec", {"part": "records"})]
 
 
 def run_shard(ctx, spec):
@@ -224,7 +239,18 @@ def run_shard(ctx, spec):
                      nontrivial=near or "ratio>=100" in cls, cls=cls, sample={k: c[k] for k in ("cls", "n", "enc", "ser", "producer", "level", "framing", "alg")})
         for k, w in f.items():
             ctx.finding(k, w, c)
-    if spec["part"] == "gen":
+    if spec["part"] == "records":
+        # joserfc compresses multi-block record-like plaintexts whose longest repeats fall into each DEFLATE length code
+        def sweep(seed0):
+            for w in LENGTH_CODE_REPS:
+                for n in (120000, 200000, LIMIT - 7):
+                    for k in range(2 if ctx.tier == "quick" else 12):
+                        if ctx.expired():
+                            return
+                        body({"kind": "records", "cls": "records", "n": n, "seed": seed0 + k, "period": w, "enc": jweplan.ENCS[(w + k) % len(jweplan.ENCS)],
+                              "ser": "compact" if k % 2 == 0 else "flattened", "producer": "joserfc", "level": 6, "framing": "raw", "alg": "dir"})
+        drive(ctx, "records", st.integers(0, 10**6), sweep, 1)
+    elif spec["part"] == "gen":
         drive(ctx, "gen", cases(), body, 200 if ctx.tier == "quick" else 3000)
     else:
         if ctx.tier == "thorough":
